@@ -5,6 +5,7 @@ import (
 	"encoding/json"
 	"fmt"
 	"os"
+	"runtime/pprof"
 	"sort"
 	"strings"
 	"time"
@@ -120,6 +121,20 @@ func cmdHarness(args []string) int {
 	ss := mkSolvers(workers, tmo)
 	defer closeSolvers(ss)
 	opt := &sym.Options{Harness: name, Params: params, Enabled: enabledFn(enable), Known: kf.openSet(), Solvers: ss, PathModels: verbose, Portfolio: true}
+	if v, ok := params["maxInstr"]; ok {
+		fmt.Sscan(v, &opt.MaxInstr)
+	}
+	if v, ok := params["maxDecisions"]; ok {
+		fmt.Sscan(v, &opt.MaxDecisions)
+	}
+	if v, ok := params["maxDigits"]; ok {
+		fmt.Sscan(v, &opt.MaxDigits)
+	}
+	if pf := os.Getenv("VERIF_PPROF"); pf != "" {
+		f, _ := os.Create(pf)
+		pprof.StartCPUProfile(f)
+		defer pprof.StopCPUProfile()
+	}
 	t1 := time.Now()
 	hr := prog.RunHarness(opt)
 	fmt.Printf("explored in %.1fs: paths=%d ends=%v instr=%d maxdec=%d maybeInfeasible=%d\n", time.Since(t1).Seconds(), hr.Paths, hr.EndCounts, hr.Instr, hr.MaxDec, hr.MaybeInf)
